@@ -60,6 +60,9 @@ MAP_FULL = [
     f"all_(0, {NR}, lambda m: implies(inside({R}, pos, m), (result.recover is None) == recover_plain({R}, pos, assoc, m)))",
     f"all_(0, {NR}, lambda m: implies(inside({R}, pos, m) and not recover_plain({R}, pos, assoc, m), result.recover == m + (pos - start_({R}, m)) * 65536))",
     f"all_(0, {NR}, lambda m: implies(inside({R}, pos, m), result.del_info == del_flags({R}, pos, assoc, m)))",
+    f"result.recover is not None ==> 0 <= result.recover and result.recover % 65536 < {NR} and (result.recover - result.recover % 65536) // 65536 >= 0",
+    f"(result.recover is None) == (recover_of({R}, pos, assoc) < 0)",
+    f"result.recover is not None ==> result.recover == recover_of({R}, pos, assoc)",
     "0 <= result.del_info",
     "result.del_info < 16",
 ]
@@ -70,6 +73,7 @@ MAP_LOOP = {
             f"diff == D({R}, i // 3)",
             f"all_(0, i // 3, lambda j: end_({R}, j) < pos)",
             f"rule({R}, pos, assoc) == rule_from({R}, pos, assoc, i // 3)",
+            f"find_m({R}, pos, 0) == find_m({R}, pos, i // 3)",
         ],
     )
 }
@@ -168,4 +172,72 @@ contract(F, "Mapping.append_mapping", {"self": "Mapping", "mapping": "Mapping"},
              "or_empty(self.mirror) == or_empty(old(self.mirror)) + am_mirror(or_empty(mapping.mirror), start_size, i)",
              "mapping.maps == old(mapping.maps)", "or_empty(mapping.mirror) == or_empty(old(mapping.mirror))",
          ], decreases="len(mapping.maps) - i")},
+         props=P)
+
+# a mirror pair registers a map and (a rebased copy of) its inverse: both have the same number
+# of ranges, and the recover encoding holds at most 65536 range indices
+MIRR_SHAPE = ("all_(0, len(self.maps), lambda a: all_(0, len(self.maps), lambda b: implies("
+              "first_idx(or_empty(self.mirror), a, 0) >= 0 and mirror_of(or_empty(self.mirror), a) == b, "
+              "len(self.maps[a].ranges) == len(self.maps[b].ranges))))")
+MAPS_SMALL = "all_(0, len(self.maps), lambda j: len(self.maps[j].ranges) // 3 <= 65536)"
+MAPPING_OK = ["0 <= self.from_", "self.from_ <= self.to", "self.to <= len(self.maps)", MAPS_WF, MIRR_OK, MIRR_SHAPE, MAPS_SMALL]
+
+contract(F, "Mapping.append_mapping_inverted", {"self": "Mapping", "mapping": "Mapping"},
+         requires=["mapping != self", "len(or_empty(mapping.mirror)) % 2 == 0"],
+         modifies=["self.maps", "self.to", "self.mirror"],
+         ensures=["len(self.maps) == len(old(self.maps)) + len(mapping.maps)",
+                  "self.maps[0:len(old(self.maps))] == old(self.maps)",
+                  "all_(len(old(self.maps)), len(self.maps), lambda p: self.maps[p].ranges == mapping.maps[len(self.maps) - 1 - p].ranges"
+                  " and self.maps[p].inverted == (not mapping.maps[len(self.maps) - 1 - p].inverted))",
+                  "len(mapping.maps) > 0 ==> self.to == len(self.maps)",
+                  "len(mapping.maps) == 0 ==> self.to == old(self.to)",
+                  "or_empty(self.mirror) == or_empty(old(self.mirror)) + ami_mirror(or_empty(mapping.mirror), len(old(self.maps)) + len(mapping.maps), len(mapping.maps), len(mapping.maps))"],
+         loops={0: dict(invariant=[
+             "-1 <= i", "i < len(mapping.maps)",
+             "total_size == len(old(self.maps)) + len(mapping.maps)",
+             "len(self.maps) == len(old(self.maps)) + (len(mapping.maps) - 1 - i)",
+             "self.maps[0:len(old(self.maps))] == old(self.maps)",
+             "all_(len(old(self.maps)), len(self.maps), lambda p: self.maps[p].ranges == mapping.maps[total_size - 1 - p].ranges"
+             " and self.maps[p].inverted == (not mapping.maps[total_size - 1 - p].inverted))",
+             "(i < len(mapping.maps) - 1 and self.to == len(self.maps)) or (i == len(mapping.maps) - 1 and self.to == old(self.to))",
+             "or_empty(self.mirror) == or_empty(old(self.mirror)) + ami_mirror(or_empty(mapping.mirror), total_size, len(mapping.maps), len(mapping.maps) - 1 - i)",
+             "mapping.maps == old(mapping.maps)", "or_empty(mapping.mirror) == or_empty(old(mapping.mirror))",
+         ], decreases="i + 1")},
+         props=P)
+
+contract(F, "Mapping.invert", {"self": "Mapping"}, returns="Mapping",
+         requires=["len(or_empty(self.mirror)) % 2 == 0"],
+         ensures=["len(result.maps) == len(self.maps)",
+                  "all_(0, len(self.maps), lambda j: result.maps[j].ranges == self.maps[len(self.maps) - 1 - j].ranges"
+                  " and result.maps[j].inverted == (not self.maps[len(self.maps) - 1 - j].inverted))",
+                  "result.from_ == 0", "result.to == len(result.maps)",
+                  "or_empty(result.mirror) == ami_mirror(or_empty(self.mirror), len(self.maps), len(self.maps), len(self.maps))",
+                  "self.maps == old(self.maps)"],
+         props=P + ["C04"])
+
+contract(F, "Mapping._map", {"self": "Mapping", "pos": "int", "assoc": "int", "simple": "bool"},
+         requires=MAPPING_OK,
+         cases=[dict(when="simple", returns="int",
+                     ensures=["result == mcompose(self.maps, or_empty(self.mirror), self.from_, self.to, pos, assoc)"]),
+                dict(when="not simple", returns="MapResult",
+                     ensures=["result.pos == mcompose(self.maps, or_empty(self.mirror), self.from_, self.to, pos, assoc)",
+                              "result.recover is None", "0 <= result.del_info", "result.del_info < 16"])],
+         loops={0: dict(invariant=[
+             "self.from_ <= i",
+             "mcompose(self.maps, or_empty(self.mirror), self.from_, self.to, old(pos), assoc) == mcompose(self.maps, or_empty(self.mirror), i, self.to, pos, assoc)",
+             "0 <= del_info", "del_info < 16",
+         ], decreases="self.to - i")},
+         props=P)
+
+contract(F, "Mapping.map_result", {"self": "Mapping", "pos": "int", "assoc": "int"}, returns="MapResult",
+         requires=MAPPING_OK,
+         ensures=["result.pos == mcompose(self.maps, or_empty(self.mirror), self.from_, self.to, pos, assoc)",
+                  "result.recover is None", "0 <= result.del_info", "result.del_info < 16"],
+         props=P)
+
+contract(F, "Mapping.map", {"self": "Mapping", "pos": "int", "assoc": "int"}, returns="int",
+         requires=MAPPING_OK,
+         ensures=["len(or_empty(self.mirror)) == 0 ==> result == compose(self.maps, self.from_, self.to, pos, assoc)",
+                  "len(or_empty(self.mirror)) > 0 ==> result == mcompose(self.maps, or_empty(self.mirror), self.from_, self.to, pos, assoc)"],
+         loops={0: dict(invariant=["pos == compose(self.maps, self.from_, i, old(pos), assoc)", "i <= self.to or i == self.from_"])},
          props=P)
